@@ -303,6 +303,7 @@ class Evaluator:
         self.funcs.setdefault("operator.itemgetter", lambda *ks: (lambda a: self.funcs["operator.getitem"](a, ks[0]) if len(ks) == 1
                                                                   else tuple(self.funcs["operator.getitem"](a, k) for k in ks)))
         self.funcs.setdefault("importlib.import_module", self._import_module)
+        self.funcs.setdefault("divmod", lambda a, b: (self.binop(ast.FloorDiv(), a, b, _dummy), self.binop(ast.Mod(), a, b, _dummy)))
 
     def _import_module(self, name: Any, package: Any = None) -> Any:
         if not isinstance(name, str):
@@ -674,6 +675,8 @@ class Evaluator:
             return a + b if isinstance(op, ast.Add) else (Lin.of(a) - b)
         if isinstance(op, ast.Add) and isinstance(a, (list, tuple, str)) and type(a) is type(b):
             return a + b
+        if isinstance(op, ast.Add) and isinstance(a, list) and isinstance(b, list):
+            return list(a) + list(b)  # a kind-qualified list joined with a plain one: the qualifier is dropped
         num = lambda x: isinstance(x, int) and not isinstance(x, bool)  # noqa: E731
         if (isinstance(a, float) or isinstance(b, float)) and all(isinstance(x, (int, float)) and not isinstance(x, bool) for x in (a, b)):
             try:
@@ -841,8 +844,36 @@ class Evaluator:
             args = [self.iterate(a) if isinstance(a, Obj) and a.resolver is not None and "leaf" not in a.attrs else a for a in args]
         return f(*args, **kwargs)
 
+    def _class_names(self, cls: ast.AST, env: Dict[str, Any]) -> List[str]:
+        """the class names an isinstance() second argument stands for; a name bound to a tuple of classes (a module-level
+        `_TYPES = (A, B)`) is expanded, an unevaluated constant is undecided rather than 'no class'"""
+        if isinstance(cls, ast.Tuple):
+            out: List[str] = []
+            for e in cls.elts:
+                out += self._class_names(e, env)
+            return out
+        if isinstance(cls, ast.BinOp) and isinstance(cls.op, ast.Add):
+            return self._class_names(cls.left, env) + self._class_names(cls.right, env)
+        if isinstance(cls, ast.Name):
+            val = env.get(cls.id, None)
+            if isinstance(val, (tuple, list)):
+                return [self._class_name_of(x) for x in val]
+            if isinstance(val, Tag) and val.name == cls.id and (cls.id.isupper() or cls.id.startswith("_")) and cls.id.upper() == cls.id:
+                raise Undecided(f"isinstance against the unevaluated constant {cls.id}")
+        return [norm(cls)]
+
+    def _class_name_of(self, x: Any) -> str:
+        if callable(x) and hasattr(x, "class_name"):
+            return x.class_name
+        if isinstance(x, Tag):
+            return x.name.split(".")[-1]
+        for nm in ("int", "bool", "str", "list", "tuple", "float", "slice", "dict", "set"):
+            if self.funcs.get(nm) is x:
+                return nm
+        raise Undecided("isinstance against an abstract class reference")
+
     def isinstance(self, v: Any, cls: ast.AST, env: Dict[str, Any]) -> bool:
-        names = [norm(e) for e in cls.elts] if isinstance(cls, ast.Tuple) else [norm(cls)]
+        names = self._class_names(cls, env)
         for nm in names:
             nm = nm.split(".")[-1]
             if isinstance(v, Obj):
@@ -969,6 +1000,14 @@ class Evaluator:
                 names = [a.name for a in st.names] if isinstance(st, ast.Import) else [st.module or ""]
                 for nm in names:
                     hook(nm, env)
+            if isinstance(st, ast.ImportFrom):
+                # `from .m import f as g`: the world already holds f under its own name; bind the alias
+                for a in st.names:
+                    if a.asname and a.asname != a.name:
+                        if a.name in env:
+                            env[a.asname] = env[a.name]
+                        elif a.name in self.funcs:
+                            env[a.asname] = self.funcs[a.name]
             return
         elif isinstance(st, ast.Global):
             env.setdefault("__globals__", set()).update(st.names)
@@ -1141,7 +1180,7 @@ BUILTINS: Dict[str, Callable[..., Any]] = {
     "int": lambda x, *b: _int(x, *b),
     "bool": lambda x: bool(x) if isinstance(x, (int, bool)) else (_ for _ in ()).throw(Undecided("bool()")),
     "str": lambda x: str(x) if isinstance(x, (int, str)) and not isinstance(x, bool) else (_ for _ in ()).throw(Undecided("str()")),
-    "dict": lambda *a: dict(*a),
+    "dict": lambda *a, **k: dict(*a, **k),
     "set": lambda *a: set(*a),
     "slice": lambda *a: slice(*a),
     "re.compile": _strfn(_re.compile),
